@@ -14,6 +14,11 @@ git apply $src/patch.diff || { echo "APPLY-FAILED"; cd /; git -C /repo worktree 
 mut=$(go test -mod=mod -vet=off -count=1 -timeout 10m -run "^($tests)\$" . 2>&1 | grep -E "^(--- FAIL|ok|FAIL|panic)" | head -5 | tr '\n' ' ')
 rm $wt/$name
 suite=$(go test -mod=mod -vet=off -count=1 -timeout 25m . 2>&1 | grep -E "^(--- FAIL|ok|FAIL|panic)" | tr '\n' ' ')
+# a panic ("timed out waiting for shutdown" under load) aborts the run before the remaining tests: run it again
+for k in 1 2; do
+  echo "$suite" | grep -q "panic" || break
+  suite=$(go test -mod=mod -vet=off -count=1 -timeout 25m . 2>&1 | grep -E "^(--- FAIL|ok|FAIL|panic)" | tr '\n' ' ')" (re-run after an aborted run)"
+done
 # the suite is wall-clock based: re-run each failed test alone (twice) and keep only the persistent ones
 persistent=""
 for t in $(echo "$suite" | grep -oE "FAIL: Test[A-Za-z0-9_]+" | awk '{print $2}' | sort -u); do
